@@ -234,6 +234,8 @@ pub enum TyKind {
     /// reference to a type assignment; module = Some for module-qualified spelling
     Ref { module: Option<String>, name: String },
     Any,
+    /// `CLASS.&field` naming a fixed-type value field of an information object class defined by an Assign::Raw
+    ClassField { class: String, field: String },
 }
 
 #[derive(Clone, Debug, PartialEq, Eq, Hash)]
@@ -343,11 +345,13 @@ impl Val {
 pub enum Assign {
     Type { name: String, ty: Ty },
     Value { name: String, ty: Ty, val: Val },
+    /// an assignment given as tokens (information object classes, objects, ...): no model beyond its name
+    Raw { name: String, tokens: Vec<String> },
 }
 impl Assign {
     pub fn name(&self) -> &str {
         match self {
-            Assign::Type { name, .. } | Assign::Value { name, .. } => name,
+            Assign::Type { name, .. } | Assign::Value { name, .. } | Assign::Raw { name, .. } => name,
         }
     }
 }
@@ -550,6 +554,7 @@ pub fn ty_tokens(t: &Ty, out: &mut Vec<String>) {
             None => out.push(name.clone()),
         },
         TyKind::Any => out.push("ANY".into()),
+        TyKind::ClassField { class, field } => out.push(format!("{class}.&{field}")),
     }
     if !constraint_done {
         if let Some(c) = &t.constraint {
@@ -637,6 +642,7 @@ pub fn module_tokens(m: &MModule, mi: usize, tokens: &mut Vec<String>, extents: 
                 tokens.push("::=".into());
                 val.tokens(tokens);
             }
+            Assign::Raw { tokens: t, .. } => tokens.extend(t.iter().cloned()),
         }
         extents.push((mi, ai, s, tokens.len() - 1));
         line_ends.push(tokens.len());
@@ -728,6 +734,7 @@ pub struct GenOpts {
     pub structured_values: bool,
     pub alphabets: bool,
     pub value_refs: bool,
+    pub class_fields: bool,
 }
 impl Default for GenOpts {
     fn default() -> Self {
@@ -757,6 +764,7 @@ impl Default for GenOpts {
             structured_values: false,
             alphabets: true,
             value_refs: true,
+            class_fields: false,
         }
     }
 }
@@ -864,6 +872,10 @@ impl<'a> Gen<'a> {
     }
 
     fn leaf(&mut self) -> Ty {
+        if self.o.class_fields && self.rng.chance(1, 6) {
+            let class = format!("CLSQ{}", self.cur_module + 1);
+            return Ty::plain(TyKind::ClassField { class, field: if self.rng.chance(1, 2) { "id".into() } else { "flag".into() } });
+        }
         let kind = match self.rng.below(16) {
             0 => TyKind::Null,
             1 => TyKind::Boolean,
@@ -1293,6 +1305,11 @@ impl<'a> Gen<'a> {
                     }
                 }
             }
+            if self.o.class_fields {
+                let cn = format!("CLSQ{}", mi + 1);
+                let toks: Vec<String> = format!("{cn} ::= CLASS {{ &id INTEGER UNIQUE , &flag BOOLEAN OPTIONAL , &Type OPTIONAL }} WITH SYNTAX {{ ID &id [ FLAG &flag ] [ TYPE &Type ] }}").split(' ').map(|x| x.to_string()).collect();
+                assigns.push(Assign::Raw { name: cn, tokens: toks });
+            }
             self.rng.shuffle(&mut assigns);
             let mut imports: BTreeMap<usize, Vec<String>> = BTreeMap::new();
             for (m, s) in &self.foreign {
@@ -1522,7 +1539,7 @@ pub fn shrink(set: &ModuleSet, pred: &dyn Fn(&ModuleSet) -> bool) -> ModuleSet {
             for ai in 0..cur.modules[mi].assigns.len() {
                 let vars: Vec<Assign> = match &cur.modules[mi].assigns[ai] {
                     Assign::Type { name, ty } => simpler_ty(ty).into_iter().map(|t| Assign::Type { name: name.clone(), ty: t }).collect(),
-                    Assign::Value { .. } => vec![],
+                    Assign::Value { .. } | Assign::Raw { .. } => vec![],
                 };
                 for v in vars {
                     let mut t = cur.clone();
